@@ -2003,6 +2003,60 @@ def path_method(eng, o, name, args, kwargs, node):
     raise EngineError("pathlib method %s is not modelled" % name)
 
 
+def _is_alpha(ch):
+    return V.Or(V.And(ch >= 65, ch <= 90), V.And(ch >= 97, ch <= 122))
+
+
+UNIT_PATTERN = r"^([0-9]+)([bkmg]?)$"
+
+
+def match_unit_pattern(eng, s0, node):
+    """re.compile(r"^([0-9]+)([bkmg]?)$", re.IGNORECASE).match(s): either None or a match whose groups D, U satisfy
+    s == D ++ U ++ T, D one or more ASCII digits, U empty or one of bkmgBKMG, T empty or a single newline
+    (`$` also matches before a trailing newline) - assumed contract of `re` for this literal pattern"""
+    from .contract import ForAll
+
+    ss = V.to_seq(s0)
+    if not eng.branch(eng.fresh_bool("unit_pattern_matches")):
+        eng.ghost["unit_match"] = None
+        return None
+    D = eng.fresh_seq("digits", "char", "str")
+    U = eng.fresh_seq("unit", "char", "str")
+    T = eng.fresh_seq("tail", "char", "str")
+    eng.assume(V.eq(ss, V.cat(D, U, T)))
+    eng.assume(V.L(D) >= 1)
+    eng.register_forall(ForAll(lambda k: V.And(V.nth(D, k) >= 48, V.nth(D, k) <= 57), guard=lambda k: V.And(k >= 0, k < V.L(D)), over=D))
+    units = [ord(ch) for ch in "bkmgBKMG"]
+    eng.assume(V.Or(V.L(U) == 0, V.And(V.L(U) == 1, V.Or(*[V.nth(U, 0) == u for u in units]))))
+    eng.assume(V.Or(V.L(T) == 0, V.And(V.L(T) == 1, V.nth(T, 0) == 10)))
+    eng.pc.append(V.uf("is_decimal", V.seq_sort("char"), z3.BoolSort())(D.t))
+    eng.ghost["unit_match"] = (D, U, T)
+    return eng.alloc("match", groups=(ss, D, U))
+
+
+@ext("re.match")
+def _re_match(eng, args, kwargs, node):
+    """re.match for the literal patterns used by the FUCs (assumed: `re` matches as documented)"""
+    pat, s0 = args[0], args[1]
+    if pat == "^[a-zA-Z]:":
+        if not is_sym(s0):
+            import re as _re
+
+            return _re.match(pat, s0) is not None
+        ss = V.to_seq(s0)
+        return V.And(V.L(ss) >= 2, _is_alpha(V.nth(ss, 0)), V.nth(ss, 1) == 58)
+    raise EngineError("re.match with pattern %r is not modelled" % (pat,))
+
+
+@ext("os.path.isabs", "posixpath.isabs")
+def _isabs(eng, args, kwargs, node):
+    s0 = args[0]
+    if not is_sym(s0):
+        return s0.startswith("/")
+    ss = V.to_seq(s0)
+    return V.And(V.L(ss) >= 1, V.nth(ss, 0) == 47)
+
+
 @ext("io.BytesIO", "BytesIO")
 def _bytesio(eng, args, kwargs, node):
     data = args[0] if args else b""
